@@ -34,6 +34,8 @@ From FT Require Import Base.Dict Model.Edit Model.EditExec Model.Toggle Model.To
 From FT Require Gen.Toggle_gen Proofs.ToggleTie Proofs.ToggleTieInv Proofs.ToggleRefuted.
 From FT Require Proofs.AnnotatorsTie.
 From FT Require Model.EditCtor Proofs.EditCtor Proofs.EditCtorDict Gen.Ctor_gen Proofs.CtorTie.
+From FT Require Proofs.EditSessionsToggle.
+From FT Require Proofs.EditSessionsToggle2.
 Import ListNotations.
 Open Scope Z_scope.
 
@@ -272,6 +274,46 @@ Proof. exact FT.Proofs.CtorTie.ctor_tie. Qed.
 Theorem C10_prepared_registry_activation : ltac:(let t := type of @FT.Proofs.EditCtorDict.construct_dict_spec in exact t).
 Proof. exact @FT.Proofs.EditCtorDict.construct_dict_spec. Qed.
 
+(* ---- sessions that MIX edits with feature switching (Tracks.enable_features with recomputation /
+        disable_features of the non-id features; switch_ok excludes the two id keys - Proofs/ToggleRefuted.v
+        shows why - and registration without recomputation):
+        C10_switch_step: one switch call keeps the complete invariant WF and the side facts (side_ok =
+        cfg_keys, reg_ok, rp_disjoint, rp_decl) and touches neither the two history stacks nor the array; a
+        refused call returns the state itself.
+        C10_sessions_with_switching_partial: every state reached along   switches ++ (an editing session over
+        the whole interface, undo / redo included) ++ (any mix of switches and edits in which nothing is undone
+        or redone)   is well formed.  "partial": undo / redo AFTER a switch is not covered unconditionally.
+        C10_sessions_with_switching_conditional: the statement for ANY interleaving, from the one hypothesis
+        that is still open (transport_along: the recorded actions stay consistent transitions between the
+        switched timeline states - a simulation of the inverses between two feature tables).
+        Proofs/EditSessionsToggle.v also contains a refutation of the unconditional statement for a configuration
+        the implementation cannot be in (regionprops keys declared without a label array): the model's
+        hypotheses, not the code, are too weak there; with an array no counter-example is known and the
+        correspondence runs such sessions on every check (toggles in C08 / C09 / C10). ---- *)
+Theorem C10_switch_step : ltac:(let t := type of @FT.Proofs.EditSessionsToggle.switch_step2 in exact t).
+Proof. exact @FT.Proofs.EditSessionsToggle.switch_step2. Qed.
+Theorem C10_sessions_with_switching_partial : ltac:(let t := type of @FT.Proofs.EditSessionsToggle.session_toggle_sandwich_reachable_WF in exact t).
+Proof. exact @FT.Proofs.EditSessionsToggle.session_toggle_sandwich_reachable_WF. Qed.
+Theorem C10_sessions_with_switching_conditional : ltac:(let t := type of @FT.Proofs.EditSessionsToggle.session_toggle_reachable_WF_conditional in exact t).
+Proof. exact @FT.Proofs.EditSessionsToggle.session_toggle_reachable_WF_conditional. Qed.
+
+(* ---- the open hypothesis narrowed (Proofs/EditSessionsToggle2.v): observational equality is transported across a
+        switch (sw_obs: two well-formed, observably equal states are switched to observably equal states - the newly
+        registered values are functions of the array and the graph only), so the fully mixed theorem - undo / redo
+        after switches included - holds from part (a) of the transport alone (C10_sessions_with_switching_modulo_a:
+        the recorded actions stay consistent transitions between the switched timeline states); without a label
+        array it is unconditional (C10_sessions_with_switching_noseg: no annotator owns a switchable key there,
+        every accepted non-id switch is the identity).  With an array, 52 mixed calls (undo / redo of node
+        deletions, strokes, edge actions, attribute updates across disable / enable of position, area, perimeter,
+        IoU) are evaluated in the kernel and stay fresh (mixed_sessions_with_array_evidence: a test, not the
+        theorem). ---- *)
+Theorem C10_switch_keeps_observable_equality : ltac:(let t := type of @FT.Proofs.EditSessionsToggle2.sw_obs in exact t).
+Proof. exact @FT.Proofs.EditSessionsToggle2.sw_obs. Qed.
+Theorem C10_sessions_with_switching_modulo_a : ltac:(let t := type of @FT.Proofs.EditSessionsToggle2.session_toggle_reachable_WF_modulo_a in exact t).
+Proof. exact @FT.Proofs.EditSessionsToggle2.session_toggle_reachable_WF_modulo_a. Qed.
+Theorem C10_sessions_with_switching_noseg : ltac:(let t := type of @FT.Proofs.EditSessionsToggle2.session_toggle_reachable_WF_noseg in exact t).
+Proof. exact @FT.Proofs.EditSessionsToggle2.session_toggle_reachable_WF_noseg. Qed.
+
 Example C10_ex_hyps :
   cfg_keys c10_st /\ W_reg c10_st /\ seg c10_st = Some c10_sg /\ W_seg c10_st /\ comps_disjoint [[2]; [1]].
 Proof. exact (conj c10_cfg_keys (conj c10_W_reg (conj eq_refl (conj c10_W_seg c10_disjoint)))). Qed.
@@ -357,3 +399,9 @@ Print Assumptions C10_regionprops_update_is_generated.
 Print Assumptions C10_edge_update_is_generated.
 Print Assumptions C10_constructor_is_generated.
 Print Assumptions C10_prepared_registry_activation.
+Print Assumptions C10_switch_step.
+Print Assumptions C10_sessions_with_switching_partial.
+Print Assumptions C10_sessions_with_switching_conditional.
+Print Assumptions C10_switch_keeps_observable_equality.
+Print Assumptions C10_sessions_with_switching_modulo_a.
+Print Assumptions C10_sessions_with_switching_noseg.
